@@ -304,3 +304,100 @@ Example strategy_irrelevant_ex :
   coherent nat n = true /\
   eval nat (fun _ => SWeight2) None n = eval nat (fun _ => SRecursive) (Some SDefault) n.
 Proof. vm_compute. split; reflexivity. Qed.
+
+(* ------------------------------------------------------------------------------------------ *)
+(* 4. the producer of the user side (V1FastPathSource): the objects it delivers are the objects
+      with a passing tuple PROVIDED no object has two tuples in the read; with two tuples of one
+      object (user and user:* ) the second is dropped before its condition is evaluated — the
+      faithful model reproduces the defect (known finding fastpath_dedup_before_condition) *)
+From OFGA Require Import Check.V1FastPathSource.
+
+Lemma drop_eq_notin : forall o l, ~ In o (map fst l) -> drop_eq o l = l.
+Proof.
+  intros o l H. destruct l as [|t r]; [reflexivity|]. simpl.
+  destruct (fst t =? o) eqn:E; [|reflexivity].
+  apply N.eqb_eq in E. exfalso. apply H. left. exact E.
+Qed.
+
+Lemma drop_last_notin : forall last l, (forall o, last = Some o -> ~ In o (map fst l)) -> drop_last last l = l.
+Proof. intros [o|] l H; [apply drop_eq_notin; apply H; reflexivity | reflexivity]. Qed.
+
+Lemma ocomb_complete : forall fuel last l1 l2,
+  (length l1 + length l2 < fuel)%nat -> NoDup (map fst (l1 ++ l2)) ->
+  (forall o, last = Some o -> ~ In o (map fst (l1 ++ l2))) ->
+  forall t, In t (ocomb fuel last l1 l2) <-> In t (l1 ++ l2).
+Proof.
+  induction fuel as [|f IH]; intros last l1 l2 Hf Hnd Hlast t; [lia|].
+  cbn [ocomb].
+  rewrite (drop_last_notin last l1), (drop_last_notin last l2).
+  2:{ intros o Ho Hin. apply (Hlast o Ho). rewrite map_app. apply in_app_iff. right. exact Hin. }
+  2:{ intros o Ho Hin. apply (Hlast o Ho). rewrite map_app. apply in_app_iff. left. exact Hin. }
+  destruct l1 as [|t1 r1]; destruct l2 as [|t2 r2].
+  - reflexivity.
+  - simpl in Hnd. inversion Hnd as [|? ? Hn Hnd']; subst.
+    simpl. rewrite (IH (Some (fst t2)) [] r2); [reflexivity | simpl in *; lia | exact Hnd' |].
+    intros o Ho. injection Ho as Ho. subst o. exact Hn.
+  - rewrite app_nil_r in *. simpl in Hnd. inversion Hnd as [|? ? Hn Hnd']; subst.
+    simpl. rewrite (IH (Some (fst t1)) r1 []); [rewrite app_nil_r; reflexivity | simpl in *; lia | rewrite app_nil_r; exact Hnd' |].
+    intros o Ho. injection Ho as Ho. subst o. rewrite app_nil_r. exact Hn.
+  - destruct (fst t2 <? fst t1).
+    + change ((t1 :: r1) ++ t2 :: r2) with ((t1 :: r1) ++ t2 :: r2) in *.
+      rewrite map_app in Hnd. simpl map in Hnd.
+      pose proof (NoDup_remove _ _ _ Hnd) as [Hnd' Hn].
+      simpl In at 1. rewrite (IH (Some (fst t2)) (t1 :: r1) r2).
+      * rewrite !in_app_iff. simpl. tauto.
+      * simpl in *. lia.
+      * rewrite map_app. exact Hnd'.
+      * intros o Ho. injection Ho as Ho. subst o. rewrite map_app. exact Hn.
+    + simpl in Hnd. inversion Hnd as [|? ? Hn Hnd']; subst.
+      simpl In at 1. rewrite (IH (Some (fst t1)) r1 (t2 :: r2)).
+      * simpl. tauto.
+      * simpl in *. lia.
+      * exact Hnd'.
+      * intros o Ho. injection Ho as Ho. subst o. exact Hn.
+Qed.
+
+Lemma nodupb_NoDup : forall l, nodupb l = true -> NoDup l.
+Proof.
+  induction l as [|x r IH]; simpl; intros H; [constructor|].
+  apply andb_true_iff in H. destruct H as [Hx Hr]. constructor; [|apply IH; exact Hr].
+  intros Hin. apply negb_true_iff in Hx.
+  assert (existsb (N.eqb x) r = true) by (apply existsb_exists; exists x; split; [exact Hin | apply N.eqb_refl]).
+  congruence.
+Qed.
+
+Theorem source_partial : forall ctxt stored,
+  nodupb (map fst (ctxt ++ stored)) = true ->
+  forall o, In o (fst (source_impl ctxt stored)) <-> exists t, In t (ctxt ++ stored) /\ fst t = o /\ snd t = 0.
+Proof.
+  intros ctxt stored Hnd o. unfold source_impl, cond_objs. cbn [fst].
+  rewrite in_map_iff. split.
+  - intros [t [Ho Hin]]. apply filter_In in Hin. destruct Hin as [Hin Hp].
+    apply (ocomb_complete (S (length ctxt + length stored)) None ctxt stored) in Hin; [|lia|apply nodupb_NoDup; exact Hnd|discriminate].
+    exists t. split; [exact Hin|]. split; [exact Ho | apply N.eqb_eq; exact Hp].
+  - intros [t [Hin [Ho Hp]]]. exists t. split; [exact Ho|]. apply filter_In. split.
+    + apply (ocomb_complete (S (length ctxt + length stored)) None ctxt stored); [lia|apply nodupb_NoDup; exact Hnd|discriminate|exact Hin].
+    + apply N.eqb_eq. exact Hp.
+Qed.
+
+(* full-strength statement (no hypothesis on repeated objects) is false for the code as it is *)
+Theorem source_refuted : exists ctxt stored o,
+  (exists t, In t (ctxt ++ stored) /\ fst t = o /\ snd t = 0) /\ ~ In o (fst (source_impl ctxt stored)).
+Proof.
+  exists [], [(7, 1); (7, 0)], 7. split.
+  - exists (7, 0). split; [right; left; reflexivity | split; reflexivity].
+  - vm_compute. intros [].
+Qed.
+
+(* consequence: on such a store the weight-2 strategy denies what the default strategy (which
+   looks at the user's tuple and at the wildcard tuple separately) allows *)
+Theorem weight2_source_refuted : exists stored right,
+  (exists r, weight2 [] [LIter (map IVal (fst (source_impl [] stored)))] right = Some r /\ w_allowed r = false) /\
+  (exists r, weight2 [] [LIter (map IVal (map fst (filter (fun t => snd t =? 0) stored)))] right = Some r /\ w_allowed r = true).
+Proof.
+  exists [(7, 1); (7, 0)], [RVal 7]. split; eexists; split; vm_compute; reflexivity.
+Qed.
+
+Example source_partial_ex : nodupb (map fst ([(1, 0)] ++ [(2, 1); (3, 0); (5, 2)])) = true /\
+  source_impl [(1, 0)] [(2, 1); (3, 0); (5, 2)] = ([1; 3], false).
+Proof. vm_compute. split; reflexivity. Qed.
